@@ -392,11 +392,17 @@ class FrameReader:
                 q.dead = True
             return out
         named = H.tag(c0) == "local" and p.env.get(c0[1]) == ("largetest",)
-        if named or self.is_large_test(cond):
+        # the negated test (`if !is_large { small } else { large }`): the same split with the branches exchanged
+        negated = False
+        if H.tag(c0) == "un" and c0[2] == "Not":
+            inner = H.strip(c0[4])
+            if (H.tag(inner) == "local" and p.env.get(inner[1]) == ("largetest",)) or self.is_large_test(inner):
+                negated = True
+        if named or negated or self.is_large_test(cond):
             a = p.fork()
-            a.large = True
+            a.large = not negated
             b = p.fork()
-            b.large = False
+            b.large = negated
             p.dead = True
             out = self.ev(then, a)
             out += self.ev(els, b) if els is not None else [(b, None)]
